@@ -967,6 +967,38 @@ hwloc_x86_add_groups(hwloc_topology_t topology,
   }
 }
 
+#ifdef HWLOC_VERIF
+/* verification hook (off unless built with -DHWLOC_VERIF): called with a textual form of what summarize() is given */
+void (*hwloc_verif_x86_cb)(struct hwloc_topology *topology, const char *line) = NULL;
+
+static void
+hwloc_verif_x86_report(struct hwloc_topology *topology, struct hwloc_x86_backend_data_s *data, struct procinfo *infos, unsigned long flags)
+{
+  char line[8192];
+  unsigned i, j;
+  int n;
+  snprintf(line, sizeof(line), "begin nbprocs=%u flags=%lu die=%d complex=%d unit=%d module=%d tile=%d",
+	   data->nbprocs, flags, data->found_die_ids, data->found_complex_ids, data->found_unit_ids, data->found_module_ids, data->found_tile_ids);
+  hwloc_verif_x86_cb(topology, line);
+  for(i=0; i<data->nbprocs; i++) {
+    n = snprintf(line, sizeof(line), "proc %u present=%u ids=", i, infos[i].present);
+    for(j=0; j<HWLOC_X86_PROCINFO_ID_NR && n < (int) sizeof(line); j++)
+      n += snprintf(line+n, sizeof(line)-n, "%u%s", infos[i].ids[j], j+1 < HWLOC_X86_PROCINFO_ID_NR ? "," : "");
+    if (n < (int) sizeof(line))
+      n += snprintf(line+n, sizeof(line)-n, " levels=%u other=%s", infos[i].levels, infos[i].otherids ? "" : "-");
+    for(j=0; infos[i].otherids && j<infos[i].levels && n < (int) sizeof(line); j++)
+      n += snprintf(line+n, sizeof(line)-n, "%u,", infos[i].otherids[j]);
+    if (n < (int) sizeof(line))
+      n += snprintf(line+n, sizeof(line)-n, " caches=%u ", infos[i].numcaches);
+    for(j=0; j<infos[i].numcaches && n < (int) sizeof(line); j++)
+      n += snprintf(line+n, sizeof(line)-n, "%u:%d:%u:%lu:%u:%d:%d;", infos[i].cache[j].level, (int) infos[i].cache[j].type, infos[i].cache[j].cacheid,
+		    infos[i].cache[j].size, infos[i].cache[j].linesize, infos[i].cache[j].ways, infos[i].cache[j].inclusive);
+    hwloc_verif_x86_cb(topology, line);
+  }
+  hwloc_verif_x86_cb(topology, "end");
+}
+#endif
+
 /* Analyse information stored in infos, and build/annotate topology levels accordingly */
 static void summarize(struct hwloc_backend *backend, struct procinfo *infos, unsigned long flags)
 {
@@ -988,6 +1020,11 @@ static void summarize(struct hwloc_backend *backend, struct procinfo *infos, uns
                 infos[i].ids[PKG], infos[i].ids[CORE], infos[i].ids[DIE], infos[i].ids[NODE]);
   }
   hwloc_debug("\n");
+#endif
+
+#ifdef HWLOC_VERIF
+  if (hwloc_verif_x86_cb)
+    hwloc_verif_x86_report(topology, data, infos, flags);
 #endif
 
   for (i = 0; i < nbprocs; i++)
